@@ -148,9 +148,54 @@ def run_items(items, jobs=None):
                 shutil.rmtree(os.path.join(cdir, d), ignore_errors=True)
     if len(items) <= 1 or jobs == 1:
         return [_work_cached(it) for it in items]
-    ctx = mp.get_context("fork")
-    with ctx.Pool(jobs, maxtasksperchild=40) as pool:
-        return pool.map(_work_cached, items, chunksize=1)
+    # worker processes are SPAWNED (forking a process that has initialised jax / its threads can deadlock); each worker
+    # loads the repo and the contracts itself.  A broken pool or a stuck item never hangs the check: what is left is
+    # re-done serially in this process.
+    import concurrent.futures as cf
+    results = [None] * len(items)
+    todo = [i for i, it in enumerate(items) if not _cached_result(it, results, i)]
+    if todo:
+        try:
+            with cf.ProcessPoolExecutor(max_workers=min(jobs, len(todo)), mp_context=mp.get_context("spawn"), initializer=_worker_init) as ex:
+                futs = {ex.submit(_work_cached, items[i]): i for i in todo}
+                done, pending = cf.wait(futs, timeout=max(900, 8 * len(todo)))
+                for f in done:
+                    try:
+                        results[futs[f]] = f.result()
+                    except Exception:
+                        pass
+                for f in pending:
+                    f.cancel()
+                if pending:
+                    for p in list(getattr(ex, "_processes", {}).values()):
+                        p.kill()
+        except Exception:
+            pass
+    for i in range(len(items)):
+        if results[i] is None:
+            results[i] = _work_cached(items[i])
+    return results
+
+
+def _worker_init():
+    os.environ.setdefault("JAX_PLATFORMS", "cpu")
+    os.environ.setdefault("JAX_ENABLE_X64", "1")
+    load_all()
+
+
+def _cached_result(item, results, i):
+    if os.environ.get("SYMJNP_NO_CACHE"):
+        return False
+    p = _cache_path(item)
+    if os.path.exists(p):
+        try:
+            r = json.load(open(p))
+            r["cached"] = True
+            results[i] = r
+            return True
+        except Exception:
+            return False
+    return False
 
 
 # ----------------------------------------------------------------------- known findings
